@@ -314,7 +314,43 @@ def _header_chunk(chunk):
             nt += 1
             if keys != sorted(dict(items)):
                 fails.append({'case': {'items': [list(i) for i in items], 'format': fmt, 'guard': guard}, 'stage': 'header', 'detail': f'defined keys {keys!r}, expected {sorted(dict(items))!r}'})
+                continue
+            # ... and each key with the documented rendering of its value: true -> define, false -> undef, integers and strings as text
+            want = [header_line(pre, k, v) for k, v in sorted(dict(items).items())]
+            got = [l for l in text.splitlines() if re.match(r'^%s(?:define|undef) ' % re.escape(pre), l) and (not guard or not l.endswith(' ' + guard))]
+            if got != want:
+                fails.append({'case': {'items': [list(i) for i in items], 'format': fmt, 'guard': guard}, 'stage': 'header-values', 'detail': f'define lines {got!r}, documented rendering {want!r}'})
     return len(chunk) * 3, nt, fails
+
+
+def header_line(pre, k, v):
+    if isinstance(v, bool):
+        return f'{pre}define {k}' if v else f'{pre}undef {k}'
+    return f'{pre}define {k} {v}'
+
+
+def _history_chunk(chunk):
+    """the rendering of a value is a function of the value: what was rendered earlier in the same process (the same key as a boolean,
+    then as the integer that compares equal to it, and the other way round; template and generated header) changes nothing"""
+    from mesonbuild.utils.universal import do_conf_str, _dump_c_header
+    fails, nt = [], 0
+    for key, first, second, how in chunk:
+        out = []
+        for v in (first, second):
+            if how == 'template':
+                res, _, _ = do_conf_str('src', [f'#mesondefine {key}\n'], CD({key: v}), 'meson')
+                out.append((res[0], spec_define(f'#mesondefine {key}\n', {key: v})))
+            else:
+                f = io.StringIO()
+                _dump_c_header(f, CD({key: v}), how, None)
+                pre = '#' if how == 'c' else '%'
+                out.append(([l for l in f.getvalue().splitlines() if l.startswith(pre + 'define ') or l.startswith(pre + 'undef ')], [header_line(pre, key, v)]))
+        nt += 1
+        for (got, want), v in zip(out, (first, second)):
+            if got != want:
+                fails.append({'case': {'key': key, 'values': [repr(first), repr(second)], 'through': how}, 'stage': 'history', 'detail': f'{key} = {v!r} rendered after {first!r}: {got!r}, documented rendering {want!r}'})
+                break
+    return len(chunk), nt, fails
 
 
 def file_cases():
@@ -361,6 +397,14 @@ def run(REG, tier, seed, jobs):
     ev, nt, fails = pmap(_header_chunk, chunked(iter(sets), 200), jobs)
     parts.append({'name': 'C14/bounded/generated-header-sorted-keys-once', 'function': '_dump_c_header', 'bound': f'{len(sets)} configuration data sets (insertion orders, value types) x 3 output formats',
                   'evaluations': ev, 'distinct_nontrivial': nt, 'rule': 'every case is distinct', 'exhaustive': tier != 'quick', 'failures': fails})
+    hc, n_ = [], 0
+    for how in ('template', 'c', 'nasm'):
+        for a, b in ((True, 1), (1, True), (False, 0), (0, False), (True, '1'), (1, '1'), (2, True)):
+            n_ += 1
+            hc.append((f'HK{n_}', a, b, how))          # a fresh key per case: no case meets what another one left behind
+    ev, nt, fails = pmap(_history_chunk, chunked(iter(hc), 1), jobs)
+    parts.append({'name': 'C14/bounded/rendering-independent-of-earlier-renderings', 'function': 'do_define_meson / _dump_c_header', 'bound': f'{len(hc)} pairs of renderings of one key in one process (boolean then the equal integer and the reverse, integer / string), through a template and through the generated header (c, nasm)',
+                  'evaluations': ev, 'distinct_nontrivial': nt, 'rule': 'every case is distinct', 'exhaustive': True, 'failures': fails})
     dl = [f'{ind}#{sp}{kw} {var}{rest}\n' for ind in ('', '  ') for sp in ('', ' ') for kw in ('cmakedefine', 'cmakedefine01') for var in ('V', 'ON', 'OFF', 'N', 'Z', 'E', 'U')
           for rest in (('', ' 1', ' V', ' N x', ' "q"') if kw == 'cmakedefine' else ('',))]
     ev, nt, fails = pmap(_cmakedefine_chunk, chunked(iter(dl), 40), jobs)
